@@ -617,7 +617,14 @@ def ite(c, a, b):
     if isinstance(a, (SB, bool)) and isinstance(b, (SB, bool)):
         return SB(z3.If(c, to_bool(a), to_bool(b)))
     ta, tb, _ = _coerce(a, b)
-    return SV(z3.If(c, ta, tb))
+    r = SV(z3.If(c, ta, tb))
+    if (isinstance(a, SV) and a.ang is not None) or (isinstance(b, SV) and b.ang is not None):
+        # a choice between angle-valued numbers: remembered so that cos/sin distribute over the choice (theory.cs_any)
+        ITE_PARTS[r.t.get_id()] = (c, a, b, r.t)
+    return r
+
+
+ITE_PARTS = {}
 
 
 def _entailed(cond):
